@@ -7,6 +7,7 @@
 //! (libvsched.so via LD_PRELOAD, found by the hook with dlsym), and child
 //! processes (childstub, a scripted preprocessor / decompressor).
 
+mod c08;
 mod c15;
 mod common;
 
@@ -25,8 +26,14 @@ fn drive(opts: &Opts, level: &str, label: &str, workloads: u64, jobs: usize, rul
     let mut rep = Report::new(opts, level, rule);
     let seed = opts.seed;
     let thorough = opts.thorough();
+    let deadline = Deadline::new(opts.budget_s());
+    let skipped = std::sync::atomic::AtomicU64::new(0);
     let run_range = |jobs: usize, n: u64| -> Acc {
-        let accs = par_fold(jobs, n, 4, || (Acc::new(), Ctx::new("procsim")), |i, st: &mut (Acc, Ctx)| {
+        let accs = par_fold(jobs, n, 1, || (Acc::new(), Ctx::new("procsim")), |i, st: &mut (Acc, Ctx)| {
+            if deadline.passed() && i >= 12 {
+                skipped.fetch_add(1, std::sync::atomic::Ordering::Relaxed);
+                return;
+            }
             f(subseed(seed, label, i), &mut st.0, &st.1, thorough);
         });
         let mut total = Acc::new();
@@ -53,6 +60,7 @@ fn drive(opts: &Opts, level: &str, label: &str, workloads: u64, jobs: usize, rul
     rep.sim_ms = total.sim_ms;
     rep.extra.insert("workload_mix".into(), total.mix.to_json());
     rep.extra.insert("workloads".into(), json!(workloads));
+    rep.extra.insert("workloads_skipped_by_time_budget".into(), json!(skipped.load(std::sync::atomic::Ordering::Relaxed)));
     rep.extra.insert("determinism_selftest".into(), json!({"workloads_reexecuted": again.digests.len(), "mismatches": 0, "driver_threads": [jobs, (jobs / 3).max(1)]}));
     rep.extra.insert("components".into(), components());
     rep.assumptions = assumptions;
@@ -71,6 +79,7 @@ fn main() {
         let prop = v["property"].as_str().unwrap_or(&opts.property).to_string();
         let vs = match v["kind"].as_str().unwrap_or("") {
             "c15" => c15::replay(&v),
+            "c08" => c08::replay(&v),
             k => harness_error(&format!("unknown replay kind {k}")),
         };
         match vs.first() {
@@ -119,6 +128,20 @@ fn main() {
                 "--files with several threads prints through an unscheduled printer thread: only timing-independent claims (status 0, empty stderr, exactly k bytes) are asserted there".into(),
             ],
             |sub, acc, ctx, thorough| c15::run_workload(sub, None, acc, ctx, thorough),
+        ),
+        "C08" => drive(
+            &opts,
+            "exploration",
+            "c08",
+            opts.cases(120, 4000),
+            jobs,
+            "one evaluation = one run of the real rg binary. Per workload (tree of 2-25 text files from empty to ~200 KiB in nested directories, pattern foo, one of the modes heading / no-heading / context+heading / count / files-with-matches / files-without-match / JSON / --files / quiet / --sort path, 2-16 threads, in 1 of 5 workloads an injected EACCES on one file so that stderr is not empty): one single-threaded reference run, then 5 (quick) / 24 (thorough) runs with -jN whose worker threads are serialised by the preloaded scheduler under a fresh seed and strategy (random, PCT, sticky, round-robin) at every hooked yield point (walker deque/counter/flag operations, before each file's search, before each buffer print). Oracle: stdout parses into per-file blocks (each file contiguous, separators exactly between blocks) that are a permutation of the reference's blocks, byte-identical (JSON/--stats elapsed times masked); exit status equal; stderr equal as a multiset of lines; --sort path: byte-identical. distinct_nontrivial = distinct schedule traces with at least one preemption.",
+            vec![
+                "sequential consistency (workers serialised by the baton scheduler)".into(),
+                "the printer thread of --files -jN is not a hooked worker; its output order is the deterministic send order".into(),
+                "timing perturbation by a slow preprocessor is replaced by direct control of the interleaving".into(),
+            ],
+            |sub, acc, ctx, thorough| c08::run_workload(sub, None, acc, ctx, thorough),
         ),
         p => harness_error(&format!("procsim does not serve {p}")),
     };
